@@ -235,7 +235,16 @@ def block(draw, depth, form_names, cs=None):
             out.extend(draw(block(depth + 1, form_names, cs)))
             out.append(("Q",))
         elif k == 9 and form_names:
-            out.append(("Do", draw(st.sampled_from(form_names))))
+            name, need = draw(st.sampled_from(form_names))
+            if need is not None:
+                # the form sets colours in the colour spaces it inherits (ISO 32000-1 8.10.1): the caller establishes
+                # them first, the two spaces independently of each other
+                for i in (0, 1):
+                    if cs[i] != need[i]:
+                        op = {1: "g", 3: "rg", 4: "k"}[need[i]]
+                        out.append((op.upper() if i else op,) + tuple(draw(COL) for _ in range(need[i])))
+                        cs[i] = need[i]
+            out.append(("Do", name))
         elif k == 10:
             # colour set in the *current* colour space, whichever operator established it (g/rg/k/cs, before or
             # after an enclosing q .. Q)
@@ -256,9 +265,11 @@ def cases(draw):
     names = []
     for i in range(draw(st.integers(0, 2))):
         name = "X%d" % i
-        ops = draw(block(1, list(names)))
+        # component counts of the (non-stroking, stroking) colour spaces the form relies on inheriting, or None
+        need = draw(st.sampled_from([None, None, (1, 3), (3, 1), (3, 4), (4, 1), (1, 1), (4, 3)]))
+        ops = draw(block(1, list(names), need))
         forms[name] = {"matrix": draw(st.one_of(st.just(TM.I6), MAT)), "ops": ops, "own": draw(st.booleans())}
-        names.append(name)
+        names.append((name, need))
     return {"prog": draw(block(0, names, [1, 1])), "forms": forms}
 
 
